@@ -101,6 +101,14 @@ pub fn check_in_thread(case: &Case, obs: &mut Obs, prop: &str) -> CaseResult {
                 format!("{}:style-unbalanced", prop),
                 "pattern {:?}: a non-default style is not followed by a reset: {:?}", s, w.styles()
             );
+            // every style request, in its place between the pieces of text
+            let want_items = render_items(&case.pat, rec, &env);
+            let got_items = items_of_events(&w.events);
+            ensure!(
+                got_items == want_items,
+                format!("{}:style-sequence", prop),
+                "pattern {:?} record level {:?}: the writer received {:?}; the pattern asks for {:?}", s, rec.level(), got_items, want_items
+            );
             let got2 = w2.bytes();
             ensure!(
                 got2 == bytes,
@@ -388,7 +396,7 @@ pub fn replay(part: &str, case: serde_json::Value) -> Option<CaseResult> {
 pub fn meta() -> EvidenceMeta {
     EvidenceMeta {
         level: "exploration",
-        rule: "cases = patterns generated as an AST over the documented grammar (all formatters and both aliases, literals with doubled/backslash escapes, MDC and date arguments, nesting <=4, optional width specs) printed to a string, x 1-2 generated records (Unicode text, absent optional fields, MDC maps, message delivered in 1-6 pieces), encoded into a capture sink with scripted short writes, on the main or a named thread, under both build profiles; oracle = render(AST, record) computed from the AST (never from re-parsing), equality of whole output, style events balanced, alias-flipped pattern renders identically; sub-second dates: cut out between literal prefix/suffix, parsed back, must lie inside the encode bracket with the requested zone's offset; zone changes: TZ is moved through 2-3 fixed-offset zones while the process runs (1.15 s apart, chrono's own refresh interval) and every local date must carry the offset of the zone in force when it is encoded; non-trivial = AST depth>=2 or escape adjacent to a formatter or absent optional field under a spec or non-ASCII record text or MDC/date argument with escapes; distinct = FNV hash of the case".into(),
+        rule: "cases = patterns generated as an AST over the documented grammar (all formatters and both aliases, literals with doubled/backslash escapes, MDC and date arguments, nesting <=4, optional width specs) printed to a string, x 1-2 generated records (Unicode text, absent optional fields, MDC maps, message delivered in 1-6 pieces), encoded into a capture sink with scripted short writes, on the main or a named thread, under both build profiles; oracle = render(AST, record) computed from the AST (never from re-parsing), equality of whole output, the exact sequence of text pieces and style requests (set before / reset after every highlight group of a coloured level, unaffected by width specs, padding outside), alias-flipped pattern renders identically; sub-second dates: cut out between literal prefix/suffix, parsed back, must lie inside the encode bracket with the requested zone's offset; zone changes: TZ is moved through 2-3 fixed-offset zones while the process runs (1.15 s apart, chrono's own refresh interval) and every local date must carry the offset of the zone in force when it is encoded; non-trivial = AST depth>=2 or escape adjacent to a formatter or absent optional field under a spec or non-ASCII record text or MDC/date argument with escapes; distinct = FNV hash of the case".into(),
         assumptions: vec![
             "date reference formatting uses chrono itself: checked is that format and zone reach chrono unaltered and the result lands in place".into(),
             "unnamed threads and highlight colours are not asserted (documentation and code disagree; statement requires only unchanged text)".into(),
